@@ -52,3 +52,560 @@ Lemma job_tasks_app a b : job_tasks (a ++ b) = job_tasks a ++ job_tasks b.
 Proof. unfold job_tasks. apply flat_map_app. Qed.
 Lemma msg_tasks_app a b : msg_tasks (a ++ b) = msg_tasks a ++ msg_tasks b.
 Proof. unfold msg_tasks. apply flat_map_app. Qed.
+
+Section Par.
+Variable tasks : name -> option task.
+Variable wake_rank : name -> name -> N.
+Variable calc_rank : name -> N.
+Variable continue_ always proc : bool.
+
+Notation node_of := (node_of tasks).
+Notation st_of := (st_of tasks).
+Notation get_task := (get_task tasks).
+Notation RI := (RI tasks).
+Notation Pre := (Pre tasks).
+Notation static_deps := (static_deps tasks).
+Notation worker_step := (worker_step tasks proc).
+Notation main_get := (main_get tasks proc).
+Notation join_all := (join_all tasks proc).
+Notation next_job_loop := (next_job_loop tasks wake_rank calc_rank continue_ always).
+Notation get_next_job := (get_next_job tasks wake_rank calc_rank continue_ always).
+Notation start_procs := (start_procs tasks wake_rank calc_rank continue_ always proc).
+Notation hand_out := (hand_out tasks wake_rank calc_rank continue_ always).
+Notation main_loop := (main_loop tasks wake_rank calc_rank continue_ always proc).
+Notation terminate := (terminate proc).
+
+(* the log of the parallel run: every action start is preceded by the final report of each dependency *)
+Inductive pordered : list pevent -> Prop :=
+| po_nil : pordered []
+| po_snoc log e : pordered log ->
+    (forall t w, e = PStart t w -> forall x, In x (static_deps t) -> pfinished log x) ->
+    pordered (log ++ [e]).
+
+Definition is_pstart (e : pevent) : bool := match e with PStart _ _ => true | _ => false end.
+
+Lemma pordered_app_nostart log evs :
+  pordered log -> forallb (fun e => negb (is_pstart e)) evs = true -> pordered (log ++ evs).
+Proof.
+  revert log. induction evs as [|e evs IH]; intros log Ho Hn; simpl in *.
+  - rewrite app_nil_r. exact Ho.
+  - apply andb_true_iff in Hn. destruct Hn as [He Hn].
+    replace (log ++ e :: evs) with ((log ++ [e]) ++ evs) by (rewrite <- app_assoc; reflexivity).
+    apply IH; auto. constructor; auto. intros t w ->. discriminate.
+Qed.
+
+Lemma pordered_split log : pordered log ->
+  forall pre t w post, log = pre ++ PStart t w :: post -> forall x, In x (static_deps t) -> pfinished pre x.
+Proof.
+  induction 1 as [|log e Ho IH He]; intros pre t w post E x Hx.
+  - destruct pre; discriminate.
+  - destruct post as [|p post'] using rev_ind.
+    + apply app_inj_tail in E. destruct E as [-> ->]. eapply He; eauto.
+    + clear IHpost'. rewrite app_comm_cons, app_assoc in E. apply app_inj_tail in E. destruct E as [-> _].
+      eapply IH; eauto.
+Qed.
+
+(* a task whose job is queued / running / whose result is queued: it was selected to run and its
+   dependencies had finished *)
+Definition ready (p : pstate) (k : name) : Prop :=
+  st_of (r_d (p_r p)) k <> SNone /\ forall x, In x (static_deps k) -> finished_in (r_tr (p_r p)) x.
+
+Record PI (p : pstate) : Prop := {
+  pi_ri : RI (r_d (p_r p)) (r_tr (p_r p));
+  pi_pre : Pre (r_d (p_r p));
+  pi_sync : forall x, finished_in (firstn (p_seen p) (r_tr (p_r p))) x -> pfinished (p_log p) x;
+  pi_ready : forall k, In k (job_tasks (p_jobs p) ++ busy_tasks (p_workers p) ++ msg_tasks (p_results p)) -> ready p k;
+  pi_ord : pordered (p_log p);
+  pi_seen : (p_seen p <= length (r_tr (p_r p)))%nat
+}.
+
+(* after sync the whole runner trace is reflected in the log *)
+Lemma sync_all p x : PI p -> finished_in (r_tr (p_r p)) x -> pfinished (p_log (sync p)) x.
+Proof.
+  intros HP Hf. unfold sync. simpl.
+  rewrite <- (firstn_skipn (p_seen p) (r_tr (p_r p))) in Hf.
+  unfold finished_in in Hf. rewrite existsb_app in Hf. apply orb_true_iff in Hf.
+  unfold pfinished. rewrite existsb_app. apply orb_true_iff. destruct Hf as [Hf|Hf].
+  - left. apply (pi_sync _ HP). exact Hf.
+  - right. apply pfinished_map_PE. exact Hf.
+Qed.
+
+Lemma firstn_length_all {A} (l : list A) : firstn (length l) l = l.
+Proof. apply firstn_all. Qed.
+
+Lemma sync_PI p : PI p -> PI (sync p).
+Proof.
+  intros HP. pose proof HP as [A B C D E F]. split; simpl; auto.
+  - intros x Hx. rewrite firstn_all in Hx. apply (sync_all p x HP Hx).
+  - apply pordered_app_nostart; auto. induction (skipn _ _); simpl; auto.
+Qed.
+
+Lemma plog_PI p evs :
+  PI p -> (forall t w, In (PStart t w) evs -> forall x, In x (static_deps t) -> finished_in (r_tr (p_r p)) x) ->
+  (forall x e, In e evs -> pfinal x e = false) ->
+  PI (plog p evs).
+Proof.
+  intros HP Hs Hnf. pose proof (sync_PI p HP) as HS. unfold plog.
+  set (q := sync p) in *. destruct HS as [A B C D E F].
+  split; simpl; auto.
+  - intros x Hx. apply pfinished_app. apply C. exact Hx.
+  - clear C D.
+    assert (Hall : forall x, finished_in (r_tr (p_r p)) x -> pfinished (p_log q) x) by (intros x Hx; apply sync_all; auto).
+    assert (G : forall l log0, pordered log0 ->
+               (forall x, finished_in (r_tr (p_r p)) x -> pfinished log0 x) ->
+               (forall t w, In (PStart t w) l -> forall x, In x (static_deps t) -> finished_in (r_tr (p_r p)) x) ->
+               pordered (log0 ++ l)).
+    { induction l as [|e l IH]; intros log0 H0 Hf Hl.
+      - rewrite app_nil_r. exact H0.
+      - replace (log0 ++ e :: l) with ((log0 ++ [e]) ++ l) by (rewrite <- app_assoc; reflexivity).
+        apply IH.
+        + constructor; auto. intros t w -> x Hx. apply Hf. apply (Hl t w); [left; reflexivity|exact Hx].
+        + intros x Hx. apply pfinished_app. apply Hf. exact Hx.
+        + intros t w Hin. apply (Hl t w). right. exact Hin. }
+    apply G; [exact E|exact Hall|exact Hs].
+Qed.
+
+Definition tasks_of (p : pstate) : list name :=
+  job_tasks (p_jobs p) ++ busy_tasks (p_workers p) ++ msg_tasks (p_results p).
+
+(* bookkeeping updates that keep runner state and log *)
+Lemma PI_update p p' :
+  p_r p' = p_r p -> p_seen p' = p_seen p -> p_log p' = p_log p ->
+  (forall k, In k (tasks_of p') -> ready p k) -> PI p -> PI p'.
+Proof.
+  intros Er Es El Ht [A B C D E F]. split; rewrite ?Er, ?Es, ?El; auto.
+  intros k Hk. specialize (Ht k Hk). unfold ready in *. rewrite Er. exact Ht.
+Qed.
+
+Lemma ready_tr p p' k :
+  r_d (p_r p') = r_d (p_r p) -> (exists evs, r_tr (p_r p') = r_tr (p_r p) ++ evs) -> ready p k -> ready p' k.
+Proof.
+  intros Ed [evs Et] [A B]. split; rewrite ?Ed; auto. intros x Hx. rewrite Et. apply finished_in_app. apply B. exact Hx.
+Qed.
+
+(* the runner state of the main thread (thread flavour: shared) gets one more report *)
+Lemma PI_with_r p r' evs :
+  PI p -> r_d r' = r_d (p_r p) -> r_tr r' = r_tr (p_r p) ++ evs ->
+  RI (r_d r') (r_tr r') ->
+  PI (with_r p r').
+Proof.
+  intros [A B C D E F] Ed Et HR. split; simpl; auto.
+  - rewrite Ed. exact B.
+  - intros x Hx. apply C. rewrite Et in Hx. rewrite firstn_app in Hx.
+    replace (p_seen p - length (r_tr (p_r p)))%nat with 0%nat in Hx by lia. simpl in Hx. rewrite app_nil_r in Hx. exact Hx.
+  - intros k Hk. specialize (D k Hk). destruct D as [D1 D2]. split; simpl; rewrite ?Ed; auto.
+    intros x Hx. rewrite Et. apply finished_in_app. apply D2. exact Hx.
+  - rewrite Et, app_length. lia.
+Qed.
+
+Lemma RI_exec d tr k :
+  RI d tr -> (forall x, In x (static_deps k) -> finished_in tr x) -> RI d (tr ++ [EExecute k]).
+Proof.
+  intros [I A Q S L O] Hd. split; auto.
+  - intros x Hx. apply finished_in_app. apply L. exact Hx.
+  - constructor; auto. intros t E x Hx. inversion E; subst. apply Hd. exact Hx.
+Qed.
+
+Lemma in_tasks_of_jobs p k : In k (job_tasks (p_jobs p)) -> In k (tasks_of p).
+Proof. unfold tasks_of. rewrite !in_app_iff. auto. Qed.
+Lemma in_tasks_of_busy p k : In k (busy_tasks (p_workers p)) -> In k (tasks_of p).
+Proof. unfold tasks_of. rewrite !in_app_iff. auto. Qed.
+Lemma in_tasks_of_msgs p k : In k (msg_tasks (p_results p)) -> In k (tasks_of p).
+Proof. unfold tasks_of. rewrite !in_app_iff. auto. Qed.
+
+Lemma PI_ready_of p k : PI p -> In k (tasks_of p) -> ready p k.
+Proof. intros HP H. apply (pi_ready _ HP). exact H. Qed.
+
+Lemma set_nth_length {A} (l : list A) i v : length (set_nth l i v) = length l.
+Proof. revert i. induction l as [|x l IH]; intros [|i]; simpl; auto. Qed.
+
+Lemma nofinal_list evs : (forall e, In e evs -> forall x, pfinal x e = false) -> True.
+Proof. auto. Qed.
+
+Lemma worker_step_PI p w : PI p -> PI (worker_step p w).
+Proof.
+  intros HP. unfold Parallel.worker_step.
+  destruct (nth w (p_workers p) WExited) as [|k|] eqn:Ew; auto.
+  - (* idle worker takes the next job *)
+    destruct (p_jobs p) as [|j js] eqn:Ej; auto.
+    assert (Hjs : forall x, In x (job_tasks js) -> ready p x).
+    { intros x Hx. apply PI_ready_of; auto. apply in_tasks_of_jobs. rewrite Ej. simpl. apply in_app_iff. auto. }
+    assert (Hbusy : forall x, In x (busy_tasks (p_workers p)) -> ready p x)
+      by (intros x Hx; apply PI_ready_of; auto; apply in_tasks_of_busy; auto).
+    assert (Hmsg : forall x, In x (msg_tasks (p_results p)) -> ready p x)
+      by (intros x Hx; apply PI_ready_of; auto; apply in_tasks_of_msgs; auto).
+    destruct j as [k| |].
+    + (* a task *)
+      assert (Hk : ready p k) by (apply PI_ready_of; auto; apply in_tasks_of_jobs; rewrite Ej; simpl; auto).
+      destruct proc.
+      * (* process flavour: the execute report travels through the result queue *)
+        apply plog_PI.
+        -- apply (PI_update p); auto. intros x Hx. unfold tasks_of in Hx. simpl in Hx.
+           rewrite !in_app_iff in Hx. destruct Hx as [Hx|[Hx|Hx]]; auto.
+           ++ destruct (busy_tasks_set_nth _ _ _ _ Hx) as [H|H]; auto. inversion H; subst. exact Hk.
+           ++ rewrite msg_tasks_app in Hx. apply in_app_iff in Hx. destruct Hx as [Hx|Hx]; auto.
+              simpl in Hx. destruct Hx as [<-|[]]. exact Hk.
+        -- intros t w' [E|[]] x Hx. inversion E; subst. simpl. apply (proj2 Hk). exact Hx.
+        -- intros x e [<-|[]]. reflexivity.
+      * (* thread flavour: the shared runner reports the execution itself *)
+        apply plog_PI.
+        -- set (p1 := with_jobs p js).
+           assert (H1 : PI p1) by (apply (PI_update p); auto; intros x Hx; unfold tasks_of in Hx; simpl in Hx;
+                                   rewrite !in_app_iff in Hx; destruct Hx as [Hx|[Hx|Hx]]; auto).
+           assert (H2 : PI (with_r p1 (start_task tasks (p_r p1) k))).
+           { apply (PI_with_r p1 _ [EExecute k]); auto. unfold start_task. simpl.
+             apply RI_exec; [apply (pi_ri _ HP)|apply (proj2 Hk)]. }
+           apply (PI_update (with_r p1 (start_task tasks (p_r p1) k))); auto.
+           intros x Hx. unfold tasks_of in Hx. simpl in Hx.
+           assert (Hr : forall y, ready p y -> ready (with_r p1 (start_task tasks (p_r p1) k)) y).
+           { intros y Hy. eapply ready_tr; [| |exact Hy]; simpl; auto. exists [EExecute k]. reflexivity. }
+           rewrite !in_app_iff in Hx. destruct Hx as [Hx|[Hx|Hx]]; auto.
+           destruct (busy_tasks_set_nth _ _ _ _ Hx) as [H|H]; auto. inversion H; subst. auto.
+        -- intros t w' [E|[]] x Hx. inversion E; subst. simpl. apply finished_in_app. apply (proj2 Hk). exact Hx.
+        -- intros x e [<-|[]]. reflexivity.
+    + (* hold *)
+      apply (PI_update p); auto. intros x Hx. unfold tasks_of in Hx. simpl in Hx.
+      rewrite !in_app_iff in Hx. destruct Hx as [Hx|[Hx|Hx]]; auto.
+    + (* terminate *)
+      set (p1 := with_jobs p js).
+      assert (H1 : PI p1) by (apply (PI_update p); auto; intros x Hx; unfold tasks_of in Hx; simpl in Hx;
+                              rewrite !in_app_iff in Hx; destruct Hx as [Hx|[Hx|Hx]]; auto).
+      assert (Hr1 : forall x, In x (tasks_of p1) -> ready p1 x) by (intros x Hx; apply PI_ready_of; auto).
+      destruct proc.
+      * set (mine := rev (nth w (p_wtd p1) [])).
+        assert (H2 : PI (plog p1 (map (fun k0 => PTdRun k0 w) mine))).
+        { apply plog_PI; auto.
+          - intros t w' Hin. apply in_map_iff in Hin. destruct Hin as [y [E _]]. discriminate.
+          - intros x e Hin. apply in_map_iff in Hin. destruct Hin as [y [<- _]]. reflexivity. }
+        apply (PI_update (plog p1 (map (fun k0 => PTdRun k0 w) mine))); auto.
+        intros x Hx. unfold tasks_of in Hx. simpl in Hx.
+        assert (Hold : forall y, In y (tasks_of p1) -> ready (plog p1 (map (fun k0 => PTdRun k0 w) mine)) y).
+        { intros y Hy. specialize (Hr1 y Hy). exact Hr1. }
+        rewrite !in_app_iff in Hx. destruct Hx as [Hx|[Hx|Hx]].
+        -- apply Hold. unfold tasks_of. rewrite !in_app_iff. auto.
+        -- destruct (busy_tasks_set_nth _ _ _ _ Hx) as [H|H]; [|discriminate].
+           apply Hold. unfold tasks_of. rewrite !in_app_iff. auto.
+        -- rewrite msg_tasks_app in Hx. apply in_app_iff in Hx. destruct Hx as [Hx|Hx].
+           ++ apply Hold. unfold tasks_of. rewrite !in_app_iff. auto.
+           ++ exfalso. clear -Hx. induction mine; simpl in Hx; auto.
+      * apply (PI_update p1); auto. intros x Hx. unfold tasks_of in Hx. simpl in Hx.
+        rewrite !in_app_iff in Hx. destruct Hx as [Hx|[Hx|Hx]].
+        -- apply Hr1. unfold tasks_of. rewrite !in_app_iff. auto.
+        -- destruct (busy_tasks_set_nth _ _ _ _ Hx) as [H|H]; [|discriminate]. apply Hr1. unfold tasks_of. rewrite !in_app_iff. auto.
+        -- apply Hr1. unfold tasks_of. rewrite !in_app_iff. auto.
+  - (* busy worker finishes its task *)
+    assert (Hk : ready p k) by (apply PI_ready_of; auto; apply in_tasks_of_busy; eapply busy_tasks_nth; eauto).
+    assert (H1 : PI (plog p [PEnd k w])).
+    { apply plog_PI; auto.
+      - intros t w' [E|[]]. discriminate.
+      - intros x e [<-|[]]. reflexivity. }
+    assert (Hr1 : forall x, In x (tasks_of p) -> ready (plog p [PEnd k w]) x) by (intros x Hx; apply (PI_ready_of p); auto).
+    destruct (is_interrupt tasks k).
+    + apply (PI_update (plog p [PEnd k w])); auto. intros x Hx. unfold tasks_of in Hx. simpl in Hx.
+      rewrite !in_app_iff in Hx. destruct Hx as [Hx|[Hx|Hx]].
+      * apply Hr1. unfold tasks_of. rewrite !in_app_iff. auto.
+      * destruct (busy_tasks_set_nth _ _ _ _ Hx) as [H|H]; [|discriminate]. apply Hr1. unfold tasks_of. rewrite !in_app_iff. auto.
+      * rewrite msg_tasks_app in Hx. apply in_app_iff in Hx. destruct Hx as [Hx|Hx]; [|destruct Hx].
+        apply Hr1. unfold tasks_of. rewrite !in_app_iff. auto.
+    + apply (PI_update (plog p [PEnd k w])); auto. intros x Hx. unfold tasks_of in Hx. simpl in Hx.
+      rewrite !in_app_iff in Hx. destruct Hx as [Hx|[Hx|Hx]].
+      * apply Hr1. unfold tasks_of. rewrite !in_app_iff. auto.
+      * destruct (busy_tasks_set_nth _ _ _ _ Hx) as [H|H]; [|discriminate]. apply Hr1. unfold tasks_of. rewrite !in_app_iff. auto.
+      * rewrite msg_tasks_app in Hx. apply in_app_iff in Hx. destruct Hx as [Hx|Hx].
+        -- apply Hr1. unfold tasks_of. rewrite !in_app_iff. auto.
+        -- simpl in Hx. destruct Hx as [<-|[]]. exact Hk.
+Qed.
+
+(* ---------- the main thread ---------- *)
+Lemma main_get_PI fuel : forall p m p', PI p -> main_get fuel p = (m, p') ->
+  PI p' /\ (forall k, m = Some (MResult k) \/ m = Some (MReport k) -> ready p' k).
+Proof.
+  induction fuel as [|fuel IH]; intros p m p' HP E; cbn [Parallel.main_get] in E.
+  { inversion E; subst. split; auto. intros k [H|H]; discriminate. }
+  set (ws := enabled_workers p (length (p_workers p)) 0) in *.
+  destruct ((if negb (is_nil (p_results p)) then 1 else 0) + length ws)%nat eqn:En.
+  { inversion E; subst. split.
+    - apply plog_PI; auto.
+      + intros t w [H|[]]. discriminate.
+      + intros x e [<-|[]]. reflexivity.
+    - intros k [H|H]; discriminate. }
+  destruct (choose (S n) (p_sched p)) as [c s].
+  assert (Hs : PI (with_sched p s)) by (apply (PI_update p); auto; intros x Hx; apply PI_ready_of; auto).
+  destruct (negb (is_nil (p_results p)) && Nat.eqb c 0).
+  - simpl in E. destruct (p_results p) as [|m0 rs] eqn:Er.
+    + inversion E; subst. split; auto. intros k [H|H]; discriminate.
+    + inversion E; subst. split.
+      * apply (PI_update (with_sched p s)); auto. intros x Hx. apply (PI_ready_of (with_sched p s)); auto.
+        unfold tasks_of in *. simpl in *. rewrite Er. rewrite !in_app_iff in *. destruct Hx as [Hx|[Hx|Hx]]; auto.
+        right; right. simpl. apply in_app_iff. auto.
+      * intros k Hk. assert (Hin : In k (tasks_of p)).
+        { apply in_tasks_of_msgs. rewrite Er. simpl. destruct Hk as [H|H]; inversion H; subst; simpl; auto. }
+        exact (PI_ready_of p k HP Hin).
+  - eapply IH; [|exact E]. apply worker_step_PI. exact Hs.
+Qed.
+
+Lemma join_all_PI fuel : forall p, PI p -> PI (join_all fuel p).
+Proof.
+  induction fuel as [|fuel IH]; intros p HP; cbn [Parallel.join_all]; auto.
+  destruct (enabled_workers p (length (p_workers p)) 0) as [|w ws] eqn:Ew; auto.
+  destruct (choose (length (w :: ws)) (p_sched p)) as [c s].
+  apply IH. apply worker_step_PI. apply (PI_update p); auto. intros x Hx. apply PI_ready_of; auto.
+Qed.
+
+(* ---------- get_next_job ---------- *)
+(* replacing the main runner state by a later one: same or longer trace, statuses of in-flight
+   tasks still known *)
+Lemma PI_with_r_gen p r' :
+  PI p -> RI (r_d r') (r_tr r') -> Pre (r_d r') ->
+  (exists evs, r_tr r' = r_tr (p_r p) ++ evs) ->
+  (forall k, In k (tasks_of p) -> st_of (r_d r') k <> SNone) ->
+  PI (with_r p r').
+Proof.
+  intros [A B C D E F] HR HPre [evs Et] Hst. split; simpl; auto.
+  - intros x Hx. apply C. rewrite Et in Hx. rewrite firstn_app in Hx.
+    replace (p_seen p - length (r_tr (p_r p)))%nat with 0%nat in Hx by lia. simpl in Hx. rewrite app_nil_r in Hx. exact Hx.
+  - intros k Hk. specialize (D k Hk). destruct D as [D1 D2]. split; simpl; auto.
+    intros x Hx. rewrite Et. apply finished_in_app. apply D2. exact Hx.
+  - rewrite Et, app_length. lia.
+Qed.
+
+Lemma next_job_loop_PI fuel : forall p completed g p',
+  PI p -> (forall k, completed = Some k -> st_of (r_d (p_r p)) k <> SNone) ->
+  next_job_loop fuel p completed = (g, p') ->
+  PI p' /\ (forall k, g = GJob (JTask k) -> ready p' k).
+Proof.
+  induction fuel as [|fuel IH]; intros p completed g p' HP Hc E; cbn [Parallel.next_job_loop] in E.
+  { inversion E; subst. split; auto. intros k H; discriminate. }
+  destruct (disp_send tasks wake_rank calc_rank (S fuel) (r_d (p_r p)) completed) as [y d] eqn:Ed.
+  pose proof (pi_ri _ HP) as HR.
+  pose proof (disp_send_spec tasks wake_rank calc_rank _ _ _ _ _ (ri_inv _ _ _ HR) (pi_pre _ HP) (ri_res _ _ _ HR) (ri_q _ _ _ HR) Hc Ed) as Hpost.
+  pose proof (RI_disp tasks _ _ _ _ HR Hpost) as HR'.
+  assert (Hst : forall x, st_of d x = st_of (r_d (p_r p)) x) by (destruct Hpost as (_ & _ & _ & S & _); exact S).
+  assert (Hwd : forall (HPre : Pre d), PI (with_r p (with_d (p_r p) d))).
+  { intros HPre. apply PI_with_r_gen; auto.
+    - exists []. simpl. rewrite app_nil_r. reflexivity.
+    - intros k Hk. simpl. rewrite Hst. apply (proj1 (PI_ready_of p k HP Hk)). }
+  destruct y as [k| | |path|].
+  - destruct (handed_of_post tasks _ _ _ Hpost) as (HK & Hcur & Hns).
+    destruct (select_task tasks continue_ always (with_d (p_r p) d) k) as [b r1] eqn:Es.
+    pose proof (select_task_post tasks continue_ always (with_d (p_r p) d) k b r1 HR' HK Es) as (R1 & P1 & S1 & Pc1 & C1 & D1).
+    destruct (select_task_ext tasks continue_ always _ _ _ _ Es) as [Ext Sto].
+    assert (H1 : PI (with_r p r1)).
+    { apply PI_with_r_gen; auto. intros x Hx.
+      destruct (N.eqb_spec x k) as [->|Hne]; [exact S1|].
+      rewrite Sto by auto. simpl. rewrite Hst. apply (proj1 (PI_ready_of p x HP Hx)). }
+    destruct b.
+    + inversion E; subst. split; auto. intros k0 Ek. inversion Ek; subst. split; simpl; auto.
+    + eapply IH; [exact H1| |exact E]. intros k0 Ek. inversion Ek; subst. exact S1.
+  - inversion E; subst. split; [|intros k H; discriminate].
+    apply (PI_update (with_r p (with_d (p_r p) d))); auto.
+    + intros x Hx. apply (PI_ready_of (with_r p (with_d (p_r p) d))); auto.
+      apply Hwd. destruct Hpost as (_ & _ & _ & _ & _ & _ & PP). exact PP.
+    + apply Hwd. destruct Hpost as (_ & _ & _ & _ & _ & _ & PP). exact PP.
+  - inversion E; subst. split; [|intros k H; discriminate].
+    apply Hwd. destruct Hpost as (_ & _ & _ & _ & _ & _ & PP). exact PP.
+  - inversion E; subst. split; [|intros k H; discriminate].
+    apply Hwd. destruct Hpost as (_ & _ & _ & _ & _ & _ & PP). exact PP.
+  - inversion E; subst. split; auto. intros k H; discriminate.
+Qed.
+
+Lemma get_next_job_PI fuel p completed g p' :
+  PI p -> (forall k, completed = Some k -> st_of (r_d (p_r p)) k <> SNone) ->
+  get_next_job fuel p completed = (g, p') ->
+  PI p' /\ (forall k, g = GJob (JTask k) -> ready p' k).
+Proof.
+  intros HP Hc E. unfold Parallel.get_next_job in E. destruct (r_stop (p_r p)).
+  - inversion E; subst. split; auto. intros k H; discriminate.
+  - eapply next_job_loop_PI; eauto.
+Qed.
+
+(* ---------- queues ---------- *)
+Lemma put_job_PI p j : PI p -> (forall k, j = JTask k -> ready p k) -> PI (put_job p j).
+Proof.
+  intros HP Hj. apply (PI_update p); auto. intros x Hx. unfold tasks_of, put_job in Hx. simpl in Hx.
+  rewrite job_tasks_app in Hx. rewrite !in_app_iff in Hx.
+  destruct Hx as [[Hx|Hx]|[Hx|Hx]].
+  - apply PI_ready_of; auto. apply in_tasks_of_jobs. exact Hx.
+  - destruct j; simpl in Hx; try contradiction. destruct Hx as [<-|[]]. apply Hj. reflexivity.
+  - apply PI_ready_of; auto. apply in_tasks_of_busy. exact Hx.
+  - apply PI_ready_of; auto. apply in_tasks_of_msgs. exact Hx.
+Qed.
+
+Lemma start_worker_PI p : PI p -> PI (start_worker p).
+Proof.
+  intros HP. apply (PI_update p); auto. intros x Hx. apply PI_ready_of; auto.
+  unfold tasks_of, start_worker in *. simpl in Hx. rewrite busy_tasks_app in Hx. simpl in Hx. rewrite app_nil_r in Hx. exact Hx.
+Qed.
+
+Lemma with_counts_PI p a b : PI p -> PI (with_counts p a b).
+Proof. intros HP. apply (PI_update p); auto. intros x Hx. apply PI_ready_of; auto. Qed.
+
+Lemma terminate_PI p : PI p -> PI (terminate p).
+Proof.
+  intros HP. unfold Parallel.terminate. destruct (proc && negb (is_nil (p_workers p))); auto.
+  apply plog_PI.
+  - apply (PI_update p); auto. intros x Hx. apply PI_ready_of; auto.
+    unfold tasks_of in *. simpl in Hx. rewrite busy_tasks_map_exited in Hx. simpl in Hx.
+    rewrite !in_app_iff in *. destruct Hx; auto.
+  - intros t w [E|[]]. discriminate.
+  - intros x e [<-|[]]. reflexivity.
+Qed.
+
+Lemma start_procs_PI fuel n : forall p e p', PI p -> start_procs fuel n p = (e, p') -> PI p'.
+Proof.
+  induction n as [|n IH]; intros p e p' HP E; cbn [Parallel.start_procs] in E.
+  { inversion E; subst. exact HP. }
+  destruct (get_next_job fuel p None) as [g p1] eqn:Eg.
+  destruct (get_next_job_PI fuel p None g p1 HP ltac:(intros k H; discriminate) Eg) as [H1 Hr].
+  destruct g as [j| |path|].
+  - eapply IH; [|exact E]. apply start_worker_PI. apply put_job_PI; auto. intros k ->. apply Hr. reflexivity.
+  - inversion E; subst. exact H1.
+  - inversion E; subst. apply terminate_PI. exact H1.
+  - inversion E; subst. exact H1.
+Qed.
+
+Lemma hand_out_PI fuel n : forall p completed e p',
+  PI p -> (forall k, completed = Some k -> st_of (r_d (p_r p)) k <> SNone) ->
+  hand_out fuel n p completed = (e, p') -> PI p'.
+Proof.
+  induction n as [|n IH]; intros p completed e p' HP Hc E; cbn [Parallel.hand_out] in E.
+  { inversion E; subst. exact HP. }
+  destruct (get_next_job fuel p completed) as [g p1] eqn:Eg.
+  destruct (get_next_job_PI fuel p completed g p1 HP Hc Eg) as [H1 Hr].
+  destruct g as [j| |path|].
+  - eapply IH; [| |exact E].
+    + apply put_job_PI; auto. intros k ->. apply Hr. reflexivity.
+    + intros k H; discriminate.
+  - eapply IH; [| |exact E].
+    + apply put_job_PI; [apply with_counts_PI; exact H1|intros k H; discriminate].
+    + intros k H; discriminate.
+  - inversion E; subst. exact H1.
+  - inversion E; subst. exact H1.
+Qed.
+
+(* the result of a task reaches the main thread *)
+Lemma process_result_PI p k :
+  PI p -> ready p k ->
+  PI (with_r p (process_result tasks continue_ (p_r p) k)) /\
+  st_of (r_d (process_result tasks continue_ (p_r p) k)) k <> SNone.
+Proof.
+  intros HP [Hst Hdeps].
+  pose proof (pi_ri _ HP) as HR.
+  assert (He : early (n_pc (node_of (r_d (p_r p)) k)) = false).
+  { destruct (early (n_pc (node_of (r_d (p_r p)) k))) eqn:E; auto.
+    exfalso. apply Hst. apply (ok_early _ _ _ _ (node_of_ok tasks _ k (ri_inv _ _ _ HR)) E). }
+  assert (HPx : PreX tasks (r_d (p_r p)) k) by (intros z Hz Hpc; apply (pi_pre _ HP); exact Hpc).
+  destruct (process_result_post tasks continue_ (p_r p) k HR He HPx) as [(R3 & P3 & S3)|Hint].
+  - split; auto. apply PI_with_r_gen; auto.
+    + unfold Runner.process_result. destruct (t_outcome (get_task k)); simpl;
+        try (eexists; reflexivity); exists []; rewrite app_nil_r; reflexivity.
+    + intros x Hx. destruct (N.eqb_spec x k) as [->|Hne]; [exact S3|].
+      assert (Hsx : st_of (r_d (process_result tasks continue_ (p_r p) k)) x = st_of (r_d (p_r p)) x).
+      { unfold Runner.process_result. destruct (t_outcome (get_task k)); simpl; auto;
+          rewrite set_status_st; apply N.eqb_neq in Hne; rewrite Hne; reflexivity. }
+      rewrite Hsx. apply (proj1 (PI_ready_of p x HP Hx)).
+  - unfold Runner.process_result. rewrite Hint. split; auto.
+    apply (PI_update p); auto. intros x Hx. apply PI_ready_of; auto.
+Qed.
+
+Lemma PI_emit_main p evs :
+  PI p -> RI (r_d (p_r p)) (r_tr (p_r p) ++ evs) -> PI (with_r p (emit (p_r p) evs)).
+Proof.
+  intros HP HR. apply (PI_with_r p _ evs); auto.
+Qed.
+
+Lemma main_loop_PI fuel : forall p e p', PI p -> main_loop fuel p = (e, p') -> PI p'.
+Proof.
+  induction fuel as [|fuel IH]; intros p e p' HP E; cbn [Parallel.main_loop] in E.
+  { inversion E; subst. exact HP. }
+  destruct (p_count p). { inversion E; subst. exact HP. }
+  destruct (main_get (S fuel * 4) p) as [m p1] eqn:Em.
+  destruct (main_get_PI _ _ _ _ HP Em) as [H1 Hr].
+  destruct m as [[k|k|k|k]|].
+  - (* a result *)
+    assert (Hk : ready p1 k) by (apply Hr; left; reflexivity).
+    destruct (process_result_PI p1 k H1 Hk) as [H2 S2].
+    set (p2 := with_r p1 (process_result tasks continue_ (p_r p1) k)) in *.
+    destruct (hand_out (S fuel) (S (p_free p2)) (with_counts p2 0 (p_count p2)) (Some k)) as [e2 p3] eqn:Eh.
+    assert (H3 : PI p3).
+    { eapply hand_out_PI; [| |exact Eh]; [apply with_counts_PI; exact H2|].
+      intros k0 Ek. inversion Ek; subst. exact S2. }
+    destruct e2; try (inversion E; subst; apply terminate_PI; exact H3).
+    destruct (deadlocked p3).
+    + inversion E; subst. apply terminate_PI. exact H3.
+    + eapply IH; eauto.
+  - (* execute report forwarded by a worker process *)
+    eapply IH; [|exact E]. apply PI_emit_main; auto.
+    apply RI_exec; [apply (pi_ri _ H1)|]. apply (proj2 (Hr k (or_intror eq_refl))).
+  - (* teardown report *)
+    eapply IH; [|exact E]. apply PI_emit_main; auto. apply RI_emit; [apply (pi_ri _ H1)|reflexivity].
+  - inversion E; subst. apply terminate_PI. exact H1.
+  - inversion E; subst. apply terminate_PI. exact H1.
+Qed.
+
+Lemma drain_PI p : PI p -> PI (drain p).
+Proof.
+  intros HP. unfold drain.
+  set (evs := flat_map _ (p_results p)).
+  assert (Hev : forall k, In (EExecute k) evs -> ready p k).
+  { intros k Hk. unfold evs in Hk. apply in_flat_map in Hk. destruct Hk as [m [Hm Hk]].
+    destruct m; simpl in Hk; try contradiction; destruct Hk as [Hk|[]]; inversion Hk; subst.
+    apply PI_ready_of; auto. apply in_tasks_of_msgs.
+    clear -Hm. induction (p_results p) as [|x l IH]; simpl in *; [contradiction|].
+    destruct Hm as [->|Hm]; simpl; auto. apply in_app_iff. right. apply IH. exact Hm. }
+  assert (HRI : forall l tr, (forall k, In (EExecute k) l -> forall x, In x (static_deps k) -> finished_in tr x) ->
+                 RI (r_d (p_r p)) tr -> RI (r_d (p_r p)) (tr ++ l)).
+  { induction l as [|e l IH]; intros tr Hl HR.
+    - rewrite app_nil_r. exact HR.
+    - replace (tr ++ e :: l) with ((tr ++ [e]) ++ l) by (rewrite <- app_assoc; reflexivity).
+      apply IH.
+      + intros k Hk x Hx. apply finished_in_app. apply (Hl k); [right; exact Hk|exact Hx].
+      + destruct e; try (apply RI_emit; [exact HR|reflexivity]).
+        apply RI_exec; auto. intros x Hx. apply (Hl k); [left; reflexivity|exact Hx]. }
+  assert (H1 : PI (with_r p (emit (p_r p) evs))).
+  { apply PI_emit_main; auto. apply HRI; [|apply (pi_ri _ HP)].
+    intros k Hk x Hx. apply (proj2 (Hev k Hk)). exact Hx. }
+  apply (PI_update (with_r p (emit (p_r p) evs))); auto.
+  intros x Hx. apply (PI_ready_of (with_r p (emit (p_r p) evs))); auto.
+  unfold tasks_of in *. simpl in *. rewrite !in_app_iff in *. destruct Hx as [Hx|[Hx|Hx]]; auto. destruct Hx.
+Qed.
+
+Lemma PI_init sched sel : PI (p_init sched sel).
+Proof.
+  split; simpl.
+  - apply RI_init.
+  - intros z Hz. simpl in Hz. discriminate.
+  - intros x Hx. discriminate.
+  - intros k [].
+  - constructor.
+  - lia.
+Qed.
+
+Lemma finish_PI p : PI p -> PI (sync (with_r p (finish (p_r p)))).
+Proof.
+  intros HP. apply sync_PI. unfold finish. apply PI_emit_main; auto.
+  apply RI_emit; [apply (pi_ri _ HP)|]. simpl. apply noexec_teardowns.
+Qed.
+
+(* the log of every parallel run, whatever the schedule *)
+Theorem parallel_dep_order fuel nprocs sched sel :
+  pordered (fst (run_parallel tasks wake_rank calc_rank continue_ always proc fuel nprocs sched sel)).
+Proof.
+  unfold run_parallel.
+  destruct (start_procs fuel nprocs (p_init sched sel)) as [e1 p1] eqn:E1.
+  pose proof (start_procs_PI fuel nprocs _ _ _ (PI_init sched sel) E1) as H1.
+  assert (Hfin : forall p2 l, PI p2 -> forallb (fun e => negb (is_pstart e)) l = true ->
+     pordered (p_log (sync (with_r p2 (finish (p_r p2)))) ++ l)).
+  { intros p2 l H2 Hl. apply pordered_app_nostart; [apply (pi_ord _ (finish_PI p2 H2))|exact Hl]. }
+  destruct e1; try (cbv beta iota zeta delta [fst]; apply Hfin; [exact H1|reflexivity]).
+  set (p1' := with_counts p1 (p_free p1) (length (p_workers p1))).
+  assert (H1' : PI p1') by (apply with_counts_PI; exact H1).
+  destruct (deadlocked p1').
+  { cbv beta iota zeta delta [fst]. apply Hfin; [apply terminate_PI; exact H1'|reflexivity]. }
+  destruct (main_loop fuel p1') as [e2 p2] eqn:E2.
+  pose proof (main_loop_PI fuel _ _ _ H1' E2) as H2.
+  destruct e2; cbv beta iota zeta delta [fst]; apply Hfin; auto.
+  apply drain_PI. apply join_all_PI. exact H2.
+Qed.
+
+End Par.
